@@ -56,13 +56,14 @@ def make_graph(shape, n, rnd, outcome):
         # waits, and finds every slot taken when it may continue: the one situation in which redo borrows a slot
         k = rnd.choice([1, 2, 3])
         hold = 'sleep 0.%d' % rnd.choice([5, 6, 8])
-        nsh = int(shape[5:] or 0) or rnd.choice([1, 2, 2, 3])      # with several locked targets the borrowed slot is given up and borrowed again
+        forced = shape.startswith('cheatf')       # the waiting job asks with `redo` (forced): after borrowing a slot it starts a job on it
+        nsh = int(shape[6 if forced else 5:] or 0) or rnd.choice([1, 2, 2, 3])      # with several locked targets the borrowed slot is given up and borrowed again
         shared = ['shared%d' % i for i in range(nsh)]
         for i, sh in enumerate(shared):
             files[sh + '.do'] = scen.leaf_do('sleep 0.%d' % (2 + 2 * i))
             files['b%d.do' % i] = scen.node_do([sh], 'sleep 0.3')
-        files['a.do'] = scen.TRACE_HDR + ('echo "S $1 $$ $PPID" >&9\nsleep 0.0%d\nredo-ifchange %s %s\necho "W+ $1 $$" >&9\nsleep 0.1\n'
-                                          'echo "W- $1 $$" >&9\necho a > $3\necho "E $1 $$ 0" >&9\n' % (5 + nsh, ' '.join(shared), ' '.join(leaves[:1])))
+        files['a.do'] = scen.TRACE_HDR + ('echo "S $1 $$ $PPID" >&9\nsleep 0.0%d\n%s %s %s\necho "W+ $1 $$" >&9\nsleep 0.1\n'
+                                          'echo "W- $1 $$" >&9\necho a > $3\necho "E $1 $$ 0" >&9\n' % (5 + nsh, 'redo' if forced else 'redo-ifchange', ' '.join(shared), ' '.join(leaves[:1])))
         for i in range(k + 2):
             files['h%d.do' % i] = scen.leaf_do(hold)
         files['top.do'] = scen.node_do(['a'] + ['b%d' % i for i in range(nsh)] + ['h%d' % i for i in range(k + 2)] + leaves[1:], sl())
@@ -274,6 +275,8 @@ def items_for(tier, rnd):
                 for outcome in ('ok', 'fail'):
                     for mode, cmd in (('inh', 'redo-ifchange'), ('own', 'redo')):
                         items.append((mode, 'cheat%d' % nsh, 4, nsh + extra, True, outcome, cmd, rnd.randrange(10 ** 6)))
+                        if outcome == 'ok':
+                            items.append((mode, 'cheatf%d' % nsh, 4, nsh + extra, True, outcome, cmd, rnd.randrange(10 ** 6)))
     for rep in range(1 if quick else 8):
         for outcome in ('err-cycle', 'err-tmpdir', 'err-empty'):
             for slots in (2, 3, 4):
